@@ -6,6 +6,7 @@
      pax <sec 0|1> <orig 0|1> <hex|none>           -> ok false | ok true ver=a.b miu=.. lto=.. wks=.. lsc=.. dpc=.. | err .. | crash ..
      tt3 <orig 0|1> <idm> <pmm> <sys> <nblocks> <hex>  -> ok none | ok <hex> | crash ..
      pdudec <hex>                                  -> ok <pdu> | err DecodeError | crash ..
+     pdumeth <hex>                                 -> ok len=<n> enc=<hex|EncodeError> | err DecodeError
      receive <orig 0|1> <state> <hex>              -> ok <state> | ok disrupted | crash .. | hang *)
 open C07
 
@@ -313,6 +314,13 @@ let handle (w : string list) : string =
       let (r, s') = t_deactivate (nat_of_int (List.length a + 5)) (mkcfg_ "0" b106 did nad miu rwt tick)
                       { now = Z0; ans = a; sent = [] } (bytes_of_hex data) (zi grace) in
       show_res (fun () -> "none") r ^ " sent=" ^ show_sent s'.sent
+  | ["pdumeth"; d] ->
+      (* what the methods on the hot path give for the decoded PDU: len(pdu), pdu.encode() *)
+      let b = bytes_of_hex d in
+      (match decode b Z0 (z_of_int (len_z b)) with
+       | Ok p -> "ok len=" ^ zs (pdu_len p) ^ " enc=" ^
+                 (match encode p with EOk e -> hex_of_bytes e | EEncodeError -> "EncodeError" | ECrash c -> "crash:" ^ crash_name c)
+       | r -> show_res show_pdu r)
   | ["pdudec"; d] -> let b = bytes_of_hex d in show_res show_pdu (decode b Z0 (z_of_int (len_z b)))
   | _ -> "?unknown-command"
 
